@@ -145,13 +145,15 @@ def run(ctx):
         # zero-key early return on both or neither
     if enc is not None and dec is not None:
         z = []
-        for f in (enc, dec):
+        trio = [f for f in (enc, dec, dw) if f is not None]
+        for f in trio:
             s = symx.eval_fn(f, consts)
             z.append(any(e[0] == "if" and render(e[1]) == "eq(key, 0x0)" for e in s.events))
-        if z[0] == z[1]:
-            ctx.ok(R_ciph, {"zero_key_early_return": z[0], "agreement": True})
+        if len(set(z)) == 1:
+            ctx.ok(R_ciph, {"zero_key_early_return": z[0], "agreement_across": [f.path.split("::")[-1] for f in trio]})
         else:
-            ctx.bad(R_ciph, "cipher|zero-key", enc.where, "zero-key early return present on one side only (enc=%s, dec=%s)" % tuple(z), "key 0 would round-trip incorrectly")
+            ctx.bad(R_ciph, "cipher|zero-key", enc.where, "zero-key identity is not uniform: %s" % {f.path.split("::")[-1]: v for f, v in zip(trio, z)},
+                    "the block routines treat key 0 as the identity while the single-dword routine (used for the len % 4 tail) does not, or vice versa: for the key that wraps to 0 at the tail, decrypt no longer inverts encrypt")
     if dw is not None:
         s = symx.eval_fn(dw, consts)
         out_r, _, _ = ref.cipher_round(lambda o, v: v)
